@@ -159,7 +159,7 @@ func exec(op string) vlib.Res {
 		return sigsNew(f)
 	case "sigs verify":
 		return sigsVerify(f)
-	case "l3 new", "l3 query", "l3 again":
+	case "l3 new", "l3 query", "l3 again", "l3 warm", "l3 advance", "l3 heal":
 		return l3Op(f, op)
 	case "pick fallback":
 		return pickFallback(f[2], vlib.Atoi(f[3]), f[4])
